@@ -77,6 +77,7 @@ pub struct RaptorQDecoder {
     decoder: raptorq::SourceBlockDecoder,
     data: Option<Vec<u8>>,
     sbn: u32,
+    encoding_symbol_length: usize,
 }
 
 impl RaptorQDecoder {
@@ -100,6 +101,7 @@ impl RaptorQDecoder {
             decoder,
             data: None,
             sbn,
+            encoding_symbol_length,
         }
     }
 }
@@ -107,6 +109,17 @@ impl RaptorQDecoder {
 impl FecDecoder for RaptorQDecoder {
     fn push_symbol(&mut self, encoding_symbol: &[u8], esi: u32) {
         if self.data.is_some() {
+            return;
+        }
+
+        if encoding_symbol.len() != self.encoding_symbol_length {
+            // The decoder only handles symbols that have the size of an encoding symbol
+            log::warn!(
+                "Discard symbol esi={} of {} bytes, encoding symbol length is {}",
+                esi,
+                encoding_symbol.len(),
+                self.encoding_symbol_length
+            );
             return;
         }
 
